@@ -93,7 +93,11 @@ class Sched:
                 break
             self.steps += 1
             if self.steps > self.max_steps:
-                self.outcome = 'livelock' if self.idle_tail >= min(1500, self.max_steps // 2) else 'budget'
+                # livelock only if nothing but idle steps (timeouts, the janitor's polling) is possible:
+                # a thread with an enabled non-idle operation means the schedule was merely unfair
+                progress_possible = any(d == 'go' and not _is_idle(self, n) for n, d in cands)
+                self.outcome = ('livelock' if (not progress_possible and
+                                               self.idle_tail >= min(1500, self.max_steps // 2)) else 'budget')
                 self.stuck = [(c.name, c.pending[0] if c.pending else None) for c in live]
                 break
             cands.sort()
